@@ -56,7 +56,11 @@ def gen_spec(rng):
         if rng.random() < 0.2:
             spec["caps"] = "custom"
         spec["layout"] = _pick(rng, ["c", "c", "f", "view"])
-        if rng.random() < 0.1:
+        if rng.random() < 0.04:
+            # long process tensors (anything done in chunks or every N steps)
+            spec["n"] = rng.randrange(33, 71)
+            spec["chi"] = rng.randrange(1, 4)
+        elif rng.random() < 0.1:
             # tensors with more than 2**14 elements (fast paths for big data)
             spec["n"] = 3
             spec["chi"] = _pick(rng, [32, 40, 64])
@@ -67,6 +71,10 @@ def gen_spec(rng):
                 "temperature": _pick(rng, [0.0, 0.8]),
                 "epsrel": _pick(rng, [1e-9, 1e-11]),
                 "unique": rng.random() < 0.25}
+        if rng.random() < 0.04:
+            spec["steps"] = rng.randrange(33, 65)
+            spec["dkmax"] = 2
+            spec["epsrel"] = 1e-9
     return spec
 
 
